@@ -71,7 +71,7 @@ Proof.
   intros H. unfold run_summary. cbn [sm_action]. rewrite H.
   destruct (find_cmd a S_help); [|exact I].
   destruct (parse (b_fmt b) true toks); [|exact I].
-  destruct (args_is_option_set (b_fmt b) x S_version); [exact I|].
+  destruct (args_is_option_set (b_fmt b) x S_version || wants_version (option_tokens toks)); [exact I|].
   destruct (args_is_argument_set (b_fmt b) x _); [|exact I].
   destruct (help_target a toks); exact I.
 Qed.
@@ -83,10 +83,46 @@ Proof.
   intros Hh Hr Hv. unfold run_summary. cbn [sm_action]. rewrite Hh, Hr, Hv. reflexivity.
 Qed.
 Lemma handler_runs_lemma debug a toks path f x :
-  wants_help (option_tokens toks) = false -> resolve a toks = Ok (path, f, x) ->
+  wants_help (option_tokens toks) = false -> wants_version (option_tokens toks) = false -> resolve a toks = Ok (path, f, x) ->
   args_is_option_set f x S_version = false -> (forall p, path = [p] -> str_eqb p S_help = false) ->
   sm_action (run_summary debug a toks) = AHandler path.
 Proof.
-  intros Hh Hr Hv Hp. unfold run_summary. cbn [sm_action]. rewrite Hh, Hr, Hv.
+  intros Hh Hw Hr Hv Hp. unfold run_summary. cbn [sm_action]. rewrite Hh, Hw, Hr, Hv. cbn [orb].
   destruct path as [|p [|q r]]; try reflexivity. rewrite (Hp p eq_refl). reflexivity.
 Qed.
+
+(* the version switch as a TOKEN (fix e9d73cf): wherever -V / --version stands among the option tokens, whatever else is
+   on the line and whichever command the line selects, no handler runs; when the line resolves to a command, the run
+   is exactly "print name and version for that command" *)
+Lemma wants_version_perm l l' : Permutation l l' -> wants_version l = wants_version l'.
+Proof. intros H. unfold wants_version. now rewrite !(has_token_perm _ _ _ H). Qed.
+Lemma version_token_never_handler debug a toks :
+  wants_version (option_tokens toks) = true ->
+  match sm_action (run_summary debug a toks) with AHandler _ => False | _ => True end.
+Proof.
+  intros H. destruct (wants_help (option_tokens toks)) eqn:Hh; [now apply help_switch_lemma|].
+  unfold run_summary. cbn [sm_action]. rewrite Hh, H.
+  destruct (resolve a toks) as [[[path f] x]|k]; [|exact I].
+  rewrite orb_true_r. exact I.
+Qed.
+Lemma version_token_prints debug a toks path f x :
+  wants_version (option_tokens toks) = true -> wants_help (option_tokens toks) = false ->
+  resolve a toks = Ok (path, f, x) ->
+  sm_action (run_summary debug a toks) = AVersion path.
+Proof.
+  intros H Hh Hr. unfold run_summary. cbn [sm_action]. rewrite Hh, H, Hr, orb_true_r. reflexivity.
+Qed.
+(* with the help switch as well, the help command is the one "selected": name and version, or an error of its lenient parse *)
+Lemma version_token_with_help debug a toks :
+  wants_version (option_tokens toks) = true -> wants_help (option_tokens toks) = true ->
+  match sm_action (run_summary debug a toks) with AVersion _ | AError _ => True | _ => False end.
+Proof.
+  intros H Hh. unfold run_summary. cbn [sm_action]. rewrite Hh, H.
+  destruct (find_cmd a S_help); [|exact I].
+  destruct (parse (b_fmt b) true toks); [|exact I].
+  rewrite orb_true_r. exact I.
+Qed.
+(* a version token after "--" is not a switch *)
+Lemma wants_version_tail l t t' :
+  wants_version (option_tokens (l ++ [DASH; DASH] :: t)) = wants_version (option_tokens (l ++ [DASH; DASH] :: t')).
+Proof. now rewrite (option_tokens_tail l t t'). Qed.
